@@ -165,6 +165,9 @@ dim!(St {
     // start(old remote credentials), one genuine authenticated check under them, then a remote ICE
     // restart: start(new remote credentials) -> Checking again
     Restarted => "checking-after-remote-restart",
+    // gathered, the peer's candidate is known, but the remote description (ufrag / password) has
+    // not been applied yet: the agent can only judge the local half of the USERNAME
+    NewNoRemote => "new-before-remote-credentials",
     // tcp-passive kind, controlled role: a genuine authenticated USE-CANDIDATE check on the peer's
     // TCP connection selected the TCP pair (Connected, nominated)
     ConnectedTcp => "connected-over-tcp",
@@ -218,7 +221,10 @@ enum Case {
 
 impl ReqCase {
     fn authenticated(&self) -> bool {
-        self.user == User::Right && self.mi == Mi::Correct
+        // before the remote credentials are known every `<local ufrag>:<anything>` is this session's
+        // username as far as the agent can tell; the key is the local password in every state
+        let user_ok = self.user == User::Right || (self.st == St::NewNoRemote && self.user == User::Stale);
+        user_ok && self.mi == Mi::Correct
     }
     /// authenticated against the bystander transport of the shared-udp-mux kind
     fn authenticated_for_bystander(&self) -> bool {
@@ -1163,6 +1169,13 @@ async fn setup(kind: Kind, st: St, role: Role, salt: u64) -> Result<Env, String>
         }
     }
 
+    if st == St::NewNoRemote {
+        env.ice.add_remote_candidate(cand);
+        if env.ice.state() != IceTransportState::New {
+            return Err("state left New during setup".into());
+        }
+        return Ok(env);
+    }
     if st == St::New {
         env.ice.set_remote_parameters(remote);
         env.ice.add_remote_candidate(cand);
@@ -1656,6 +1669,7 @@ fn outcome_json(o: &Outcome) -> Value {
 fn state_exists(kind: Kind, st: St, role: Role) -> bool {
     match kind {
         Kind::Udp => st != St::ConnectedTcp,
+        _ if st == St::NewNoRemote => false,
         Kind::Mux => matches!(st, St::New | St::Checking | St::ConnPending | St::Connected),
         Kind::Tcp | Kind::TcpMux => matches!(st, St::New | St::Checking | St::ConnPending | St::Connected) || (st == St::ConnectedTcp && role == Role::Controlled),
     }
@@ -1677,7 +1691,7 @@ fn enumerate(tier: vh::Tier) -> Vec<Case> {
                     }
                     for uc in [false, true] {
                         for &user in User::ALL {
-                            if (user == User::Stale && st != St::Restarted) || (user == User::Other && !kind.has_bystander()) {
+                            if (user == User::Stale && st != St::Restarted && st != St::NewNoRemote) || (user == User::Other && !kind.has_bystander()) {
                                 continue;
                             }
                             for &mi in Mi::ALL {
